@@ -94,25 +94,20 @@ theorem expand_is_heredoc_statement_false : ¬ expand_is_heredoc_statement := by
 
 /-! ## shell.Fields = arguments -/
 
-def WordsWF (ws : List (List Seg)) : Prop := ∀ w ∈ ws, ∀ seg ∈ w, SegWF seg
-
-theorem wordsLoop_eq_wordsArgs (env : Env) : ∀ (ws : List (List Seg)), WordsWF ws →
-    wordsLoop env ws = wordsArgs env ws := by
+theorem wordsLoop_eq_wordsArgs (env : Env) : ∀ (ws : List (List Seg)), wordsLoop env ws = wordsArgs env ws := by
   intro ws
   induction ws with
-  | nil => intro _; rfl
+  | nil => rfl
   | cons w rest ih =>
-    intro h
     simp only [wordsLoop, wordsArgs]
-    rw [wordFields_eq_wordArgs env w (h w (List.mem_cons_self ..)),
-      ih (fun x hx => h x (List.mem_cons_of_mem _ hx))]
+    rw [wordFields_eq_wordArgs env w, ih]
 
-/-- On the fragment, shell.Fields gives the words bash produces for the string as arguments —
-    provided the words the parser reads are well formed: non-empty literals (always so) and no empty
-    `""` (the one real restriction: an empty "" adds no part to the field; counter-example below). -/
-theorem fields_is_args_partial (s : Bytes) (env : Env)
-    (hwf : ∀ ws, parseWords (s.length + 1) s [] = .ok ws → WordsWF ws) :
-    shellFields s env = argsSem s env := by
+/-- On the fragment, shell.Fields gives the words bash produces for the string as arguments: the
+    field machine of `wordFields` (tilde prefix, splitAdd, flush, allowEmpty, the empty part of `""`)
+    equals "atoms split at separators" — for every string and environment, no side condition.
+    (Before the upstream fix of C22-empty-dquotes this needed "no empty \"\""; the model was
+    re-synchronised with the repaired wordFields.) -/
+theorem fields_is_args (s : Bytes) (env : Env) : shellFields s env = argsSem s env := by
   unfold shellFields argsSem
   split
   · cases hp : parseWords (s.length + 1) s [] with
@@ -120,27 +115,14 @@ theorem fields_is_args_partial (s : Bytes) (env : Env)
     | outside => rfl
     | ok ws =>
       simp only
-      rw [wordsLoop_eq_wordsArgs env ws (hwf ws hp)]
+      rw [wordsLoop_eq_wordsArgs env ws]
   · rfl
-
-/-- The full statement: FALSE today (C22-empty-dquotes seen through shell.Fields). -/
-def fields_is_args_statement : Prop := ∀ (s : Bytes) (env : Env), shellFields s env = argsSem s env
 
 def emptyDqInput : Bytes := "\"\"$sp".toUTF8.toList
 def emptyDqEnv : Env := [("sp".toUTF8.toList, " a".toUTF8.toList)]
 
-/-- `""$sp` with sp=" a": bash gives an empty field and `a`; the model (like the Go code) only `a`. -/
-theorem fields_is_args_counterexample :
-    shellFields emptyDqInput emptyDqEnv = .ok [[97]] ∧
-    argsSem emptyDqInput emptyDqEnv = .ok [[], [97]] := by
-  constructor <;> decide +kernel
-
-theorem fields_is_args_statement_false : ¬ fields_is_args_statement := by
-  intro h
-  have := h emptyDqInput emptyDqEnv
-  rw [fields_is_args_counterexample.1, fields_is_args_counterexample.2] at this
-  revert this
-  decide
+/-- `""$sp` with sp=" a": an empty field and `a`, as in bash. -/
+theorem fields_empty_dquotes : shellFields emptyDqInput emptyDqEnv = .ok [[], [97]] := by decide +kernel
 
 /-! ## errors -/
 
